@@ -2,18 +2,9 @@
    equivalence, exactly the specification's extensions of mu (spec_extend). *)
 From Coq Require Import List Bool ZArith Btauto.
 Import ListNotations.
-From BWPlanner Require Import Terms Rows Clause Store Fetch Plan PatternSpec RowsProofs FetchProofs PlanProofs SpecSound Equiv Canon Uniform.
+From BWPlanner Require Import Terms Rows Clause Store Fetch Plan PatternSpec RowsProofs FetchProofs PlanProofs SpecSound Equiv Canon Domain Uniform.
 
-(* ---------- the supported fragment, clause by clause *)
-Definition no_bounds (c : clause) : bool :=
-  is_empty (cPLoA c) && is_empty (cPUpA c) && negb (is_some (cPLo c)) && negb (is_some (cPUp c)).
-
-Definition d3_clause (c : clause) : bool :=
-  negb (c_opt c) && negb (specificity3 c) && no_bounds c && is_empty (cOIdA c) &&
-  (match cP c with Some _ => is_empty (cPID c) | None => is_empty (cPID c) || negb (is_empty (cPAncB c)) end) &&
-  (match cO c with Some _ => is_empty (cOID c) | None => is_empty (cOID c) || negb (is_empty (cOAncB c)) end) &&
-  nodup_str (map fst (binders c)) && negb (match binders c with [] => true | _ => false end).
-
+(* ---------- the supported fragment, clause by clause (Domain.d3_clause), as a record of facts *)
 Record d3c (c : clause) : Prop := {
   d_opt : c_opt c = false;
   d_spec3 : specificity3 c = false;
